@@ -5,6 +5,7 @@ import (
 	"fmt"
 	"os"
 	"runtime"
+	"strings"
 	"sync"
 	"time"
 
@@ -52,6 +53,7 @@ type World struct {
 	cond    *sync.Cond
 	ops     map[string]*Op
 	dead    []*Op
+	dbs     map[any]bool
 	Acks    map[uint64][]Ack // per checkpoint id, in arrival order
 	regs    map[string]bool
 	OnAck   func(a Ack)
@@ -96,7 +98,7 @@ func NewWorld(tune Tuning) *World {
 		base = os.TempDir()
 	}
 	w := &World{Dir: fmt.Sprintf("%s/w%d-%d", base, os.Getpid(), worldSeq), H: NewHandler(), Tune: tune,
-		memfs: storage.NewMemoryFilesystem(), ops: map[string]*Op{}, Acks: map[uint64][]Ack{}, regs: map[string]bool{}}
+		memfs: storage.NewMemoryFilesystem(), ops: map[string]*Op{}, Acks: map[uint64][]Ack{}, regs: map[string]bool{}, dbs: map[any]bool{}}
 	w.cond = sync.NewCond(&w.mu)
 	w.installHooks()
 	return w
@@ -105,6 +107,16 @@ func NewWorld(tune Tuning) *World {
 func (w *World) installHooks() {
 	verifhook.SetPoint(func(name string, args ...any) {
 		w.mu.Lock()
+		// Events of databases of an earlier case (still finishing a task) are not ours:
+		// a database's first event is always its first rotation.
+		if strings.HasPrefix(name, "dkv.") && len(args) > 0 {
+			if name == "dkv.rotate" {
+				w.dbs[args[0]] = true
+			} else if !w.dbs[args[0]] {
+				w.mu.Unlock()
+				return
+			}
+		}
 		switch name {
 		case "dkv.rotate":
 			w.Rotations++
@@ -177,6 +189,7 @@ func (w *World) Close() {
 	for _, o := range ops {
 		o.Stop()
 	}
+	w.Quiesce(5 * time.Second)
 	verifhook.SetTuner(nil)
 	verifhook.SetPoint(nil)
 	os.RemoveAll(w.Dir)
@@ -354,7 +367,17 @@ func (op *Op) Stop() {
 	// can reuse their file names.
 	op.W.dead = append(op.W.dead, op)
 	op.W.mu.Unlock()
-	op.W.Quiesce(10 * time.Second) // a dead process has no background tasks
+}
+
+// SettleDead must be called after stopping operators and before starting their
+// successors: a dead process has no background tasks, and the cleanups of its
+// already obsolete tables run now, before file names can be reused.
+func (w *World) SettleDead() {
+	if !w.Quiesce(10 * time.Second) && os.Getenv("VERIF_DEBUG_STALL") != "" {
+		buf := make([]byte, 1<<16)
+		buf = buf[:runtime.Stack(buf, true)]
+		fmt.Printf("DEBUG quiesce failed rot=%d swaps=%d idle=%d\n%s\n", w.Rotations, w.FlushSwaps, w.CompactIdle, buf)
+	}
 	for i := 0; i < 2; i++ {
 		runtime.GC()
 		time.Sleep(100 * time.Microsecond)
